@@ -55,7 +55,7 @@ def gen(rng, idx, tier):
     if net.get("seg") == "dribble":
         dimse = 0.5     # a byte-by-byte dribble of one response must not outlast the DIMSE timeout
     return {"op": op, "stream": stream, "gap": rng.choice([0.0, 0.0005, 0.002]), "probe_lock": rng.randrange(3) > 0,
-            "msg_id": rng.choice([0, 1, 3, 65535]), "pack": rng.choice(["separate", "separate", "one_pdu"]),
+            "msg_id": rng.choice([0, 1, 3, 65535]), "pack": rng.choice(["separate", "separate", "one_pdu", "empty_last", "one_pdu+empty_last"]),
             "dimse": dimse, "sched": C.gen_sched(rng, fine_pct=25), "net": net}
 
 
@@ -95,7 +95,8 @@ def execute(sc, ctx):
     op = sc["op"]
     mid = sc.get("msg_id", 3)
     # the peer may put the command-set PDV and the data-set PDV of one message into a single P-DATA-TF
-    one_pdu = sc.get("pack") == "one_pdu"
+    one_pdu = "one_pdu" in (sc.get("pack") or "")
+    empty_last = "empty_last" in (sc.get("pack") or "")
     p = RawPeer(ctx)
     p.listen(11113)
     stores = ctx.obs["store_handler"] = []
@@ -137,12 +138,12 @@ def execute(sc, ctx):
             if k == "pending":
                 ident = {"ok": R.FIND_DS, "bad": BAD_IDENT, "none": None}[st["ident"]]
                 extra = {W.T_REMAINING: 1, W.T_COMPLETED: nsub, W.T_FAILED: 0, W.T_WARNING: 0} if op in ("get", "move") else None
-                for b in W.fragment(cx, W.rsp(RSP_NAME[op], mid, 0xFF00, SOP[op], ident is not None, extra=extra), ident, one_pdu=one_pdu):
+                for b in W.fragment(cx, W.rsp(RSP_NAME[op], mid, 0xFF00, SOP[op], ident is not None, extra=extra), ident, one_pdu=one_pdu, empty_last=empty_last):
                     p.send(b)
             elif k == "store_rq":
                 nsub += 1
                 cmd = W.rq("C-STORE-RQ", 100 + nsub, C.CT, True, extra={W.T_AFFECTED_INSTANCE: "1.2.3.4.5"})
-                for b in W.fragment(ids.get(C.CT, 9), cmd, R.store_ds_bytes(), 16382, one_pdu=one_pdu):
+                for b in W.fragment(ids.get(C.CT, 9), cmd, R.store_ds_bytes(), 16382, one_pdu=one_pdu, empty_last=empty_last):
                     p.send(b)
                 got = p.recv_until((4, 7), 0.5)
                 ctx.obs.setdefault("store_rsp", []).append(got if isinstance(got, str) else got[0])
@@ -151,7 +152,7 @@ def execute(sc, ctx):
                 extra = {W.T_COMPLETED: nsub, W.T_FAILED: 0, W.T_WARNING: 0} if op in ("get", "move") else None
                 if op in ("store", "n_get", "n_set"):
                     extra = {W.T_AFFECTED_INSTANCE: "1.2.3.4.5"}
-                for b in W.fragment(cx, W.rsp(RSP_NAME[op], mid, st["status"], SOP[op], ident is not None, extra=extra), ident, one_pdu=one_pdu):
+                for b in W.fragment(cx, W.rsp(RSP_NAME[op], mid, st["status"], SOP[op], ident is not None, extra=extra), ident, one_pdu=one_pdu, empty_last=empty_last):
                     p.send(b)
             elif k == "invalid":
                 f = {W.T_COMMAND_FIELD: W.CMD[RSP_NAME[op]], W.T_MESSAGE_ID_RSP: mid, W.T_DATASET_TYPE: 0x0101, W.T_AFFECTED_CLASS: SOP[op]}
